@@ -82,7 +82,7 @@ type CallSpec struct {
 	Node       int            `json:"node,omitempty"`   // server index (RPC, Unicast)
 	Ctx        string         `json:"ctx,omitempty"`    // "", background, cancel, deadline, precancelled
 	DeadlineUs int            `json:"deadline_us,omitempty"`
-	PerNode    map[int]string `json:"per_node,omitempty"` // server -> skip | tag:<k> ; absent = tag 0
+	PerNode    map[int]string `json:"per_node,omitempty"` // server -> skip | empty (a message with every field at its default) | tag:<k> ; absent = tag 0
 	Script     QScript        `json:"script,omitempty"`
 	NoSendWait bool           `json:"no_send_wait,omitempty"`
 	Payload    int            `json:"payload,omitempty"`
@@ -579,6 +579,10 @@ func (call *Call) perNodeFn() func(*puppet.Req, uint32) *puppet.Req {
 		}
 		if !ok {
 			return nil
+		}
+		if call.Spec.PerNode[s] == "empty" {
+			// a message, not "no message": every field at its default, so it encodes to zero bytes
+			return &puppet.Req{}
 		}
 		cp := proto.Clone(r).(*puppet.Req)
 		cp.NodeTag = tag
